@@ -46,6 +46,16 @@ func Group(services *fun.Iterator[*Service]) *Service {
 			}
 			wg.Wait(ctx)
 			ec.Add(waiters.Close())
+
+			// the group runs for as long as any of its members
+			// does: returning here would end the group's context,
+			// which is the context every member was started with,
+			// and shut all of them down as soon as they are up.
+			// (Their errors are collected in Cleanup.)
+			iter := waiters.Iterator()
+			for iter.Next(ctx) {
+				_ = iter.Value()()
+			}
 			return nil
 		},
 		Cleanup: func() error {
